@@ -1726,6 +1726,20 @@ func vfE5ReplayEmptyReqSurvives(t *testing.T, name string) {
 		conn.Write([]byte("REQ " + string(m1.ID[:]) + " 0\n"))
 	}
 	g.wait(t)
+	// round 10: take the consumer's pump out of the picture (white-box RDY 0) for the variants that put the message back on
+	// the queue. With RDY 1 the requeued message could be received by messagePump before Empty got the write lock and
+	// registered in flight after Empty's reset (the pump's own receive -> StartInFlightTimeout window, not the REQ / scan
+	// window this replay is about): seen once under load as survived=true with empty_waited_for_req=true on the
+	// unchanged tree. With RDY 0 the outcome is decided by the order of REQ's (the scan's) put and Empty alone.
+	if name != "empty_races_touch_survives" {
+		ch.RLock()
+		for _, c := range ch.clients {
+			if cv, ok := c.(*clientV2); ok {
+				cv.SetReadyCount(0)
+			}
+		}
+		ch.RUnlock()
+	}
 	// a tree where REQ holds the channel's read lock makes Empty wait for the parked REQ; the others let it through
 	empDone := make(chan string, 1)
 	go func() { empDone <- vfE5Try(20*time.Second, func() { ch.Empty() }) }()
@@ -1742,8 +1756,8 @@ func vfE5ReplayEmptyReqSurvives(t *testing.T, name string) {
 	}
 	time.Sleep(100 * time.Millisecond)
 	depthAfterReq := ch.Depth()
-	// what the channel still holds once Empty and REQ have both returned (the consumer is ready: a message REQ
-	// put back is delivered at once - before the Empty on a tree where Empty waited, after it otherwise)
+	// what the channel still holds once Empty and REQ have both returned (the consumer is NOT ready, see above: a message
+	// REQ put back stays on the queue - Empty discards it on a tree where Empty waited, it survives otherwise)
 	ch.inFlightMutex.Lock()
 	heldAfter := int64(len(ch.inFlightMessages))
 	ch.inFlightMutex.Unlock()
